@@ -82,7 +82,8 @@ func (c *PublishHeader) WriteHTMLTo(w io.Writer) (int64, error) {
 	}
 
 	if c.options.ShowSurnames {
-		badge := core.NewCountBadge(getSurnames(c.document).Len())
+		badge := core.NewCountBadge(getSurnames(c.document,
+			c.options.LivingVisibility).Len())
 		item := core.NewNavItem(
 			core.NewComponents(core.NewText("Surnames "), badge),
 			c.selectedTab == selectedSurnamesTab,
@@ -126,25 +127,38 @@ func (c *PublishHeader) WriteHTMLTo(w io.Writer) (int64, error) {
 	).WriteHTMLTo(w)
 }
 
-// surnamesByDocument caches the surnames of each document (*gedcom.Document to
+// surnamesByDocument caches the surnames of each document (surnamesKey to
 // *gedcom.StringSet). It must be per document because more than one document
-// can be published by the same process.
+// can be published by the same process, and per visibility because the
+// surnames of living individuals only appear when they are shown.
 var surnamesByDocument sync.Map
 
-func getSurnames(document *gedcom.Document) *gedcom.StringSet {
-	if surnames, ok := surnamesByDocument.Load(document); ok {
+type surnamesKey struct {
+	document   *gedcom.Document
+	visibility LivingVisibility
+}
+
+func getSurnames(document *gedcom.Document, visibility LivingVisibility) *gedcom.StringSet {
+	key := surnamesKey{document, visibility}
+	if surnames, ok := surnamesByDocument.Load(key); ok {
 		return surnames.(*gedcom.StringSet)
 	}
 
 	surnames := gedcom.NewStringSet()
 	for _, individual := range document.Individuals() {
+		// Nothing about a living individual can be published unless they are
+		// shown. That includes their surname.
+		if visibility != LivingVisibilityShow && individual.IsLiving() {
+			continue
+		}
+
 		surname := individual.Name().Surname()
 		if surname != "" {
 			surnames.Add(surname)
 		}
 	}
 
-	surnamesByDocument.Store(document, surnames)
+	surnamesByDocument.Store(key, surnames)
 
 	return surnames
 }
